@@ -119,7 +119,7 @@ def generate(job):
         spec["n_part"] = n
         spec["perm"] = rs.shuffle(list(range(n)))
         for _ in range(rs.randint(3, 7)):
-            k = rs.choice(["loadfile", "loadfile", "multifile", "savetxt_raw", "savetxt_processed", "savetxt_processed", "save_struct", "cached_data"])
+            k = rs.choice(["loadfile", "loadfile", "multifile", "savetxt_raw", "savetxt_processed", "savetxt_processed", "calangle_savetxt", "save_struct", "cached_data"])
             spec["ops"].append({"k": k, "fmt": rs.choice(["dat", "npy", "npz"]), "nfile": rs.choice([1, 2, 3]), "z": rs.chance(0.4)})
         if rs.chance(0.35):
             spec["fault"] = {"at": rs.randrange(len(spec["ops"])), "bytes": rs.choice([0, 40, 200, 1000])}
@@ -571,6 +571,19 @@ def run_files(spec, log, scratch):
                 back = cfg.data.load_data(fn)
                 got = {str(kk): np.array(v["p"]) for kk, v in back["particle"].items() if str(kk) in P}
                 check_particles(got, "%s->load_data(%s, dat_order=%s)" % (k, fmt, "".join(order)), i, exact=(fmt != "dat"))
+            elif k == "calangle_savetxt":
+                # the data object's own writer: particle order given explicitly or the natural order of the decay
+                src = cfg.data.cal_angle({kk: v for kk, v in p.items()})
+                if hasattr(src, "savetxt"):
+                    fn = os.path.join(scratch, "ca%d.dat" % i)
+                    use = None if op["z"] else list(order)
+                    with file_size_limit(fault["bytes"]) if faulty else contextlib.nullcontext():
+                        if faulty:
+                            log.count("fault.file_size_limit")
+                        src.savetxt(fn, order=use)
+                    written_order = use if use is not None else [str(x) for x in src.get_decay().outs]
+                    got = D.load_dat_file(fn, written_order)
+                    check_particles(got, "CalAngleData.savetxt(order=%s)->load_dat_file" % ("".join(use) if use else "None"), i, exact=False)
             elif k == "save_struct":
                 st = {"p": P, "w": np.arange(N) * 0.5, "nest": [P[names[0]], {"x": P[names[1]][:, 0]}]}
                 fn = os.path.join(scratch, "st%d" % i)
